@@ -49,7 +49,7 @@ type Task struct {
 	site   string
 	resume chan struct{}
 	sim    *Sim
-	killed bool
+	selCount int
 }
 
 // Event is one scheduling decision.
